@@ -181,6 +181,23 @@ fn check_list(ev: &mut Ev, pt: &str, names: &[String], splits: &[Vec<usize>]) ->
             if rev != got {
                 return Err(format!("best_match({pt:?}, {x:?}, {y:?}) = {got:?} but with arguments swapped = {rev:?}").into());
             }
+            // The same two names as slices of ONE buffer (a name and a longer
+            // name that begins with it, cut from the same line): the answer is
+            // about the texts, not about where they lie in memory.
+            if x.len() < y.len() && y.starts_with(x.as_str()) {
+                let xa: &str = &y[..x.len()];
+                for (u, v) in [(xa, y.as_str()), (y.as_str(), xa)] {
+                    let g = p.best_match(u, v);
+                    ev.eval();
+                    ev.count("aliased-slices/pairs");
+                    if g != exp {
+                        return Err(format!(
+                            "best_match({pt:?}, {u:?}, {v:?}) = {g:?} when both names are slices of one buffer starting at the same address, {exp:?} when they are separate strings"
+                        )
+                        .into());
+                    }
+                }
+            }
         }
     }
     // Boundary shift: the same characters split differently between pattern
@@ -358,6 +375,7 @@ pub fn run(cx: &mut Cx) {
     cx.ev.require("boundary-shift/pairs");
     cx.ev.require("lists/revision-cluster");
     cx.ev.require("lists/neighbours");
+    cx.ev.require("aliased-slices/pairs");
     let n = cx.per_shard(30, 2_500, 96_000, 600_000);
     let mut r = cx.stream("lists");
     for _ in 0..n {
